@@ -285,3 +285,81 @@ Proof.
     assert (recoverable (ADedup a hm auto maxdup maxatt) = true) as Hr2 by (simpl; rewrite Hd; reflexivity).
     exact (recover_observable m _ rw evs Hr2).
 Qed.
+
+(* ---------------------------------------------------------------------------------------------- *)
+(* recovery from a history whose rewarded DNAs are stored as they were proposed (no feedback metadata),
+   all of them or only some (e.g. the last reward reached the history but feedback() was never called) *)
+Theorem recover_from_stored_proposals : forall m a rw evs hm, recoverable a = true ->
+  let g := denote m a in
+  let r := run_events g rw evs in
+  r_ok g r = true ->
+  HRk (r_hist g r) hm ->
+  pview (obs g (recovered g hm)) = pview (obs g (r_st g r)).
+Proof.
+  intros m a rw evs hm Hrec g r Hok Hh. unfold recovered.
+  destruct a as [| t | a' hm' au md ma | i sz u t].
+  - destruct (run_reach (denote m ASweep) rw anyfed (fun _ => I) evs Hok) as (HR & _).
+    exact (proj1 (base_obs_rec m ASweep eq_refl) _ _ HR _ (HRk_HRw _ _ Hh)).
+  - destruct (run_reach (denote m (ARand t)) rw anyfed (fun _ => I) evs Hok) as (HR & _).
+    exact (proj1 (base_obs_rec m (ARand t) eq_refl) _ _ HR _ (HRk_HRw _ _ Hh)).
+  - simpl in Hrec. apply negb_true_iff in Hrec.
+    destruct (base_obs_rec m a' Hrec) as [Ho Hm].
+    assert (forall d, keyfed d d) as Hk by (intro; repeat split).
+    destruct (run_reach (denote m (ADedup a' hm' au md ma)) rw keyfed Hk evs Hok) as (HR & _).
+    exact (dedup_obs_rec (denote m a') m hm' au md ma Ho Hm _ _ HR _ Hh).
+  - destruct (run_reach (denote m (AEvo i sz u t)) rw anyfed (fun _ => I) evs Hok) as (HR & _).
+    exact (proj1 (base_obs_rec m (AEvo i sz u t) eq_refl) _ _ HR _ (HRk_HRw _ _ Hh)).
+Qed.
+
+(* the boolean check evaluated by the model on every generated case is sound for that hypothesis *)
+Lemma oeqb_Z : forall a b, oeqb Z.eqb a b = true -> a = b.
+Proof. intros [x|] [y|] H; simpl in H; try discriminate; auto. apply Z.eqb_eq in H. congruence. Qed.
+Lemma oeqb_bool : forall a b, oeqb Bool.eqb a b = true -> a = b.
+Proof. intros [x|] [y|] H; simpl in H; try discriminate; auto. apply eqb_prop in H. congruence. Qed.
+
+Lemma dna_eqb_eq : forall a b, dna_eqb a b = true -> a = b.
+Proof.
+  intros [v1 p1 g1 i1 f1 t1 k1 s1] [v2 p2 g2 i2 f2 t2 k2 s2] H. unfold dna_eqb in H. simpl in H.
+  repeat (apply andb_true_iff in H; destruct H as [H ?]).
+  apply Z.eqb_eq in H. apply Nat.eqb_eq in H0.
+  repeat match goal with X : oeqb Z.eqb _ _ = true |- _ => apply oeqb_Z in X end.
+  apply oeqb_bool in H4. subst. reflexivity.
+Qed.
+
+Lemma hs_key_b_sound : forall e e', hs_key_b e e' = true -> hs_key e e'.
+Proof.
+  intros [d ro] [d' ro'] H. unfold hs_key_b in H. simpl in H.
+  repeat (apply andb_true_iff in H; destruct H as [H ?]).
+  apply oeqb_Z in H. apply oeqb_Z in H3. apply Nat.eqb_eq in H2. apply Z.eqb_eq in H1. subst ro'.
+  repeat split; simpl; auto.
+  intros r Hr. subst ro. apply orb_true_iff in H0. destruct H0 as [E | E].
+  - left. apply dna_eqb_eq. assumption.
+  - right. destruct (dfsn d') eqn:F1; [discriminate|]. destruct (dfsn d) as [q|] eqn:F2; [|discriminate].
+    split; [reflexivity|]. exists q. apply dna_eqb_eq. assumption.
+Qed.
+
+Lemma hrk_b_sound : forall h h', hrk_b h h' = true -> HRk h h'.
+Proof.
+  induction h; destruct h'; simpl; intros H; try discriminate; constructor.
+  - apply andb_true_iff in H. apply hs_key_b_sound. tauto.
+  - apply IHh. apply andb_true_iff in H. tauto.
+Qed.
+
+Theorem recover_from_stored_proposals_b : forall m a rw evs hm, recoverable a = true ->
+  let g := denote m a in
+  let r := run_events g rw evs in
+  r_ok g r = true ->
+  hrk_b (r_hist g r) hm = true ->
+  pview (obs g (recovered g hm)) = pview (obs g (r_st g r)).
+Proof. intros. apply recover_from_stored_proposals; auto. apply hrk_b_sound. assumption. Qed.
+
+(* non-vacuity: in the example run, the history with every rewarded DNA stored without its feedback metadata
+   is accepted by the check, and differs from the live history *)
+Definition strip_fed (e : hentry) : hentry :=
+  match snd e with
+  | Some _ => (mkDna (dval (fst e)) (dpid (fst e)) (dgid (fst e)) (dini (fst e)) None None (dkey (fst e)) (dskip (fst e)), snd e)
+  | None => e
+  end.
+Definition ex_hist : list hentry := r_hist _ (run_events (denote 3 ex_alg) ex_rw ex_events).
+Example ex_stored_proposals : hrk_b ex_hist (map strip_fed ex_hist) = true /\ map strip_fed ex_hist <> ex_hist.
+Proof. vm_compute. split; [reflexivity | discriminate]. Qed.
